@@ -289,3 +289,69 @@ def set_size(A, m, n):
     if m < 0 or n < 0 or m * n != A.m * A.n:
         raise Refuse('TypeError', 'number of elements cannot change')
     A.m, A.n = m, n
+
+
+def ediv(A, B):
+    """cvxopt.div(A, B): elementwise quotient (true division), a 1x1 matrix is a scalar"""
+    tc = promote(promote(A.tc, B.tc), 'd')
+    if A.size == B.size:
+        av, bv, size = A.v, B.v, A.size
+    elif B.size == (1, 1):
+        av, bv, size = A.v, [B.v[0]] * len(A.v), A.size
+    elif A.size == (1, 1):
+        av, bv, size = [A.v[0]] * len(B.v), B.v, B.size
+    else:
+        raise Refuse('TypeError', 'incompatible dimensions')
+    if any(b == 0 for b in bv):
+        raise Refuse('ZeroDivisionError', 'division by zero')
+    return MM(tc, size[0], size[1], [conv(a, tc) / conv(b, tc) for a, b in zip(av, bv)])
+
+
+def eminmax(A, B, which):
+    """cvxopt.max / cvxopt.min of two matrices (a 1x1 matrix is a scalar); no ordering for complex"""
+    if A.tc == 'z' or B.tc == 'z':
+        raise Refuse('TypeError', 'ordering not defined for complex numbers')
+    tc = promote(A.tc, B.tc)
+    if A.size == B.size:
+        av, bv, size = A.v, B.v, A.size
+    elif B.size == (1, 1):
+        av, bv, size = A.v, [B.v[0]] * len(A.v), A.size
+    elif A.size == (1, 1):
+        av, bv, size = [A.v[0]] * len(B.v), B.v, B.size
+    else:
+        raise Refuse('TypeError', 'incompatible dimensions')
+    f = max if which == 'max' else min
+    return MM(tc, size[0], size[1], [f(conv(a, tc), conv(b, tc)) for a, b in zip(av, bv)])
+
+
+def vstack(A, B):
+    """matrix([A, B]): one block column, A on top of B"""
+    if A.n != B.n:
+        raise Refuse('TypeError', 'incompatible dimensions of subblocks')
+    tc = promote(A.tc, B.tc)
+    out = []
+    for j in range(A.n):
+        out += [A.get(i, j) for i in range(A.m)] + [B.get(i, j) for i in range(B.m)]
+    return MM(tc, A.m + B.m, A.n, out)
+
+
+def hstack(A, B):
+    """matrix([[A], [B]]): two block columns side by side"""
+    if A.m != B.m:
+        raise Refuse('TypeError', 'incompatible dimensions of subblocks')
+    tc = promote(A.tc, B.tc)
+    return MM(tc, A.m, A.n + B.n, list(A.v) + list(B.v))
+
+
+def fromlist(vals, m, n, tc):
+    """matrix(list, (m, n)[, tc])"""
+    t = 'i'
+    for x in vals:
+        t = promote(t, tcnum(x))
+    if tc is None:
+        tc = t
+    if ORDER[t] > ORDER[tc]:
+        raise Refuse('TypeError', 'cannot cast')
+    if len(vals) != m * n:
+        raise Refuse('TypeError', 'wrong matrix dimensions')
+    return MM(tc, m, n, vals)
